@@ -26,12 +26,11 @@ def joinSlash : List Str → Str
   | [x] => x
   | x :: y :: r => x ++ '/' :: joinSlash (y :: r)
 
-/-- `initial_slashes`: 0, 1, or 2 (exactly two leading slashes). -/
-def initialSlashes : Str → Nat
-  | '/' :: '/' :: '/' :: _ => 1
-  | '/' :: '/' :: _ => 2
-  | '/' :: _ => 1
-  | _ => 0
+/-- `initial_slashes`: with `n` the number of leading slashes — 0 if `n = 0`, 2 if `n = 2`
+(`startswith('//') and not startswith('///')`), else 1. -/
+def initialSlashes (p : Str) : Nat :=
+  let n := (p.takeWhile (· = '/')).length
+  if n = 0 then 0 else if n = 2 then 2 else 1
 
 def dot : Str := ['.']
 def dotdot : Str := ['.', '.']
